@@ -3,6 +3,8 @@
 import collections, json, os, re, shutil, sys
 
 log = sys.argv[1]
+SUBDIR = os.environ.get("SEEDED_SUBDIR", "seeded_out")
+INFIX = os.environ.get("SEEDED_INFIX", "")
 root = os.path.join(os.path.dirname(os.path.dirname(os.path.abspath(__file__))), "seeded")
 notes = json.load(open(sys.argv[2])) if len(sys.argv) > 2 else {}
 entries = collections.OrderedDict()
@@ -23,11 +25,11 @@ for line in open(log):
         e["tests"] = "PATCH-DOES-NOT-APPLY"
 kept = 0
 for (pid, stem), e in entries.items():
-    src = f"/tmp/wt/{pid}/seeded_out"
+    src = f"/tmp/wt/{pid}/{SUBDIR}"
     if e["tests"] is None or "passed" not in e["tests"] or "failed" in e["tests"] or e["demo"] != (0, 1):
         print("NOT CONFIRMED", pid, stem, e["tests"], e["demo"])
         continue
-    sid = f"{pid}_{stem}"
+    sid = f"{pid}_{INFIX}{stem}"
     d = os.path.join(root, sid)
     os.makedirs(d, exist_ok=True)
     shutil.copy(f"{src}/{stem}.diff", f"{d}/patch.diff")
